@@ -255,8 +255,9 @@ ListenStepRA(l, rm, ad) ==
      IN /\ rm \in (IF toClr = {} THEN {None} ELSE toClr)
         /\ ad \in (IF toSet = {} THEN {None} ELSE toSet)
         /\ lsent' = [lsent EXCEPT ![l] = (@ \ {rm}) \cup (IF ad = None THEN {} ELSE {ad})]
-        /\ lwch' = [lwch EXCEPT ![l] = IF rm = None /\ ad = None THEN "cur" ELSE "closed"]
-        /\ peers' = IF rm = None /\ ad = None /\ ~lstale[l] THEN [peers EXCEPT ![LPeer(l)].hasCur = TRUE] ELSE peers
+        \* mutation "listenwait": after an iteration that only withdrew a peer the loop waits instead of scanning again
+        /\ lwch' = [lwch EXCEPT ![l] = IF (rm = None \/ Mut = "listenwait") /\ ad = None THEN "cur" ELSE "closed"]
+        /\ peers' = IF (rm = None \/ Mut = "listenwait") /\ ad = None /\ ~lstale[l] THEN [peers EXCEPT ![LPeer(l)].hasCur = TRUE] ELSE peers
   /\ UNCHANGED <<sess, trk, cst, wch, prevOpen, ret, lst, lusurp, lx, lstale, lret, badDeliv, dropFlag, badReq, pend>>
 
 ListenUsurpedExit(l) == lst[l] = "run" /\ lwch[l] = "closed" /\ lusurp[l] /\ ListenCleanup(l, "usurped")
